@@ -172,15 +172,19 @@ class Projector(object):
                 out[vid] = rhs
         return out
 
+    def _inline_hoisted(self, e, depth=0):
+        from ..ir import N
+        if e.k == 'Ref' and e.a.get('id') in self.hoisted and depth < 4:
+            return self._inline_hoisted(self.hoisted[e.a['id']], depth + 1)
+        if not e.c:
+            return e
+        return N(e.k, e.t, [self._inline_hoisted(c, depth) for c in e.c], e.a, e.line, e.mac)
+
     def text(self, e):
-        e = _commute(e)
         if self.hoisted and any(y.k == 'Ref' and y.a.get('id') in self.hoisted for y in e.walk()):
-            t = canon(e, ids=False)
-            for y in e.walk():
-                if y.k == 'Ref' and y.a.get('id') in self.hoisted:
-                    t = re.sub(r'(?<![>.\w])%s\b' % re.escape(y.a['name']), canon(self.hoisted[y.a['id']], ids=False), t)
-        else:
-            t = canon(e, ids=False)
+            e = self._inline_hoisted(e)         # a local that merely names a pure sub-expression is looked through before ordering
+        e = _commute(e)
+        t = canon(e, ids=False)
         # callee names inside expressions
         for y in e.walk():
             if y.k == 'Call':
